@@ -75,12 +75,26 @@ def r20_1(ctx):
             for k in ks:
                 needed.setdefault(k, stmt)
     need(needed, "map_blocks no longer builds payloads under has_keyword(func, ...)")
-    # the freeze statement
+    # the freeze statement: a rebinding of the argument list whose elements are wrapped in ChunksFreeze, either inline
+    # (``[Array(ChunksFreeze(a.expr, a.chunks)) if <isinstance tests> else a for a in args]``) or through a same-module
+    # helper (``[_freeze(a) for a in args]``)
+    m = f.module
+
+    def freeze_helper(call):
+        if isinstance(call, ast.Call) and isinstance(call.func, ast.Name) and len(call.args) == 1 and not call.keywords:
+            g = m.functions.get(call.func.id)
+            if g is not None and g.cls is None and any(isinstance(c, ast.Call) and dotted(c.func) == "ChunksFreeze" for c in ast.walk(g.node)):
+                return g
+        return None
+
     freeze = None
-    for s in cfg.stmts():
-        if isinstance(s, ast.Assign) and any(isinstance(c, ast.Call) and dotted(c.func) == "ChunksFreeze" for c in ast.walk(s.value)):
-            freeze = s
-    need(freeze is not None, "map_blocks no longer wraps its inputs in ChunksFreeze")
+    for s_ in cfg.stmts():
+        if isinstance(s_, ast.Assign) and (any(isinstance(c, ast.Call) and dotted(c.func) == "ChunksFreeze" for c in ast.walk(s_.value)) or any(freeze_helper(c) for c in ast.walk(s_.value))):
+            freeze = s_
+    if freeze is None:
+        rr.inst(f.construct + "::freeze", present=False)
+        ctx.finding(rr, f.construct + "::freeze", "map_blocks no longer wraps its inputs in ChunksFreeze before building per-block payloads: a block_info/block_id consumer is told about a layout that optimization is free to change", func=f)
+        return rr
     target = unparse(freeze.targets[0])
     guards = cfg.guards(freeze)
     covered = set()
@@ -99,26 +113,55 @@ def r20_1(ctx):
             continue
         if k not in covered:
             ctx.finding(rr, c, f"a per-block payload is built when func accepts {k!r}, but the input-freezing test does not mention has_keyword(func, {k!r}): inputs of such calls are not layout-pinned", func=f, node=freeze)
-    # shape of the wrapping: ChunksFreeze(a.expr, a.chunks) for every Array, no extra narrowing conjunct
+    # shape of the wrapping: every Array input becomes ChunksFreeze(a.expr, a.chunks); the only inputs passed through
+    # unchanged are those that fail an isinstance test (non-arrays, already frozen expressions)
     comp = freeze.value
-    ok_shape = isinstance(comp, ast.ListComp) and isinstance(comp.elt, ast.IfExp)
+    ok_shape = isinstance(comp, ast.ListComp) and len(comp.generators) == 1
     if ok_shape:
-        ife = comp.elt
         var = unparse(comp.generators[0].target)
-        calls = [c for c in ast.walk(ife.body) if isinstance(c, ast.Call) and dotted(c.func) == "ChunksFreeze"]
-        if not calls or [unparse(a) for a in calls[0].args] != [f"{var}.expr", f"{var}.chunks"]:
-            ctx.finding(rr, site(f, freeze)[:150], f"the freeze does not pin the advertised layout: expected ChunksFreeze({var}.expr, {var}.chunks)", func=f, node=freeze)
-        conj = ife.test.values if isinstance(ife.test, ast.BoolOp) and isinstance(ife.test.op, ast.And) else [ife.test]
-        for cj in conj:
-            t = cj.operand if isinstance(cj, ast.UnaryOp) and isinstance(cj.op, ast.Not) else cj
-            if not (isinstance(t, ast.Call) and dotted(t.func) == "isinstance"):
-                ctx.finding(rr, f"{f.construct}::freeze condition {unparse(cj)}", f"the wrapping condition is narrowed by `{unparse(cj)}`: some array inputs of a block_info/block_id consumer are left unpinned", func=f, node=freeze)
-        if comp.generators[0].ifs:
-            ctx.finding(rr, f"{f.construct}::freeze comprehension filter", "the freeze comprehension filters its inputs: arguments are dropped or left unpinned", func=f, node=freeze)
-        if unparse(comp.generators[0].iter) != target:
-            ctx.finding(rr, site(f, freeze)[:150], f"the frozen list is built from {unparse(comp.generators[0].iter)} but bound to {target}", func=f, node=freeze)
-    else:
-        ctx.finding(rr, site(f, freeze)[:150], "unrecognised shape of the freeze statement (expected a list comprehension over args with a conditional ChunksFreeze wrap)", func=f, node=freeze)
+        elt = comp.elt
+        wrap_args, conds = None, []
+        helper = freeze_helper(elt)
+        if isinstance(elt, ast.IfExp):
+            calls = [c for c in ast.walk(elt.body) if isinstance(c, ast.Call) and dotted(c.func) == "ChunksFreeze"]
+            wrap_args = [unparse(a) for a in calls[0].args] if calls else None
+            conds = [("wrap-if", cj) for cj in (elt.test.values if isinstance(elt.test, ast.BoolOp) and isinstance(elt.test.op, ast.And) else [elt.test])]
+            if unparse(elt.orelse) != var:
+                ctx.finding(rr, site(f, freeze)[:150], f"inputs that are not wrapped are replaced by {unparse(elt.orelse)} instead of being passed through", func=f, node=freeze)
+        elif helper is not None and unparse(elt.args[0]) == var:
+            hv = helper.params[0]
+            hcfg = cfg_of(ctx, helper)
+            for r in hcfg.returns:
+                calls = [c for c in ast.walk(r.value) if isinstance(c, ast.Call) and dotted(c.func) == "ChunksFreeze"] if r.value is not None else []
+                if calls:
+                    wrap_args = [unparse(a).replace(hv + ".", var + ".") for a in calls[0].args]
+                elif r.value is not None and unparse(r.value) == hv:
+                    # passed through unchanged under these conditions (each must be an isinstance test)
+                    for t, pol in hcfg.guards(r):
+                        if r in [x for x in ast.walk(hcfg.func)]:
+                            pass
+                    own = [(t, pol) for t, pol, kind in hcfg.guards(r, with_kind=True) if kind == "enclosing"]
+                    for t, pol in own:
+                        conds.append(("pass-if", t))
+                else:
+                    ctx.finding(rr, site(helper, r)[:150], f"the freeze helper returns {unparse(r.value) if r.value is not None else None}: neither the frozen array nor the unchanged argument", func=helper, node=r)
+        else:
+            ok_shape = False
+        if ok_shape:
+            if wrap_args != [f"{var}.expr", f"{var}.chunks"]:
+                ctx.finding(rr, site(f, freeze)[:150], f"the freeze does not pin the advertised layout: expected ChunksFreeze({var}.expr, {var}.chunks), found {wrap_args}", func=f, node=freeze)
+            for kind, cj in conds:
+                t = cj
+                while isinstance(t, ast.UnaryOp) and isinstance(t.op, ast.Not):
+                    t = t.operand
+                if not (isinstance(t, ast.Call) and dotted(t.func) == "isinstance"):
+                    ctx.finding(rr, f"{f.construct}::freeze condition {unparse(cj)}", f"the wrapping condition is narrowed by `{unparse(cj)}`: some array inputs of a block_info/block_id consumer are left unpinned", func=f, node=freeze)
+            if comp.generators[0].ifs:
+                ctx.finding(rr, f"{f.construct}::freeze comprehension filter", "the freeze comprehension filters its inputs: arguments are dropped or left unpinned", func=f, node=freeze)
+            if unparse(comp.generators[0].iter) != target:
+                ctx.finding(rr, site(f, freeze)[:150], f"the frozen list is built from {unparse(comp.generators[0].iter)} but bound to {target}", func=f, node=freeze)
+    if not ok_shape:
+        ctx.finding(rr, site(f, freeze)[:150], "unrecognised shape of the freeze statement (expected a list comprehension over args that wraps each element in ChunksFreeze, inline or through a same-module helper)", func=f, node=freeze)
     # ordering: the freeze (or the negative branch of its test) precedes every use of the arguments
     users = [s for s in cfg.stmts() if isinstance(s, ast.Assign) and s is not freeze and target in {n.id for n in ast.walk(s.value) if isinstance(n, ast.Name)}]
     need(users, "no statement derives the blockwise arguments from `args`")
@@ -159,11 +202,18 @@ def r20_2(ctx):
                 continue
             if f.cls is cf:
                 continue
-            rr.inst(site(f), refs=len(refs))
+            constructs = any(isinstance(n, ast.Call) and dotted(n.func) == "ChunksFreeze" for n in full_walk(f.node))
+            callee_ids = {id(n.func) for n in full_walk(f.node) if isinstance(n, ast.Call)}
+            tests = [n for n in refs if id(n) not in callee_ids]  # mentioned other than as the constructor being called
+            is_hook = f.name in ("_simplify_down", "_simplify_up", "_lower", "lower_once", "fuse", "_fuse") or f.name.startswith(("_accept_", "_pushdown", "_slice_pushdown", "_rechunk_pushdown", "_shuffle_pushdown")) or f.name in ("optimize_blockwise_fusion_array", "_remove_conflicting_exprs", "_symbolic_mapping", "is_fusable_blockwise")
+            rr.inst(site(f), refs=len(refs), constructs=constructs, tests=len(tests), rewrite_hook=is_hook)
             if f.fq in allowed_refs:
                 rr.exempt(site(f), allowed_refs[f.fq])
                 continue
-            ctx.finding(rr, site(f), "code outside the sanctioned construction sites names ChunksFreeze: a rewrite that recognises the barrier can move a pattern across it", func=f, node=refs[0])
+            if is_hook:
+                ctx.finding(rr, site(f), "a rewrite hook names ChunksFreeze: a rewrite that recognises the barrier can move a pattern across it (or rebuild it elsewhere)", func=f, node=refs[0])
+            elif tests and not constructs:
+                ctx.finding(rr, site(f), "code that does not build the barrier tests for ChunksFreeze: the only sanctioned test is the 'already frozen?' guard next to a construction", func=f, node=tests[0])
     return rr
 
 
@@ -193,7 +243,9 @@ def r20_4(ctx):
         gated = {unparse(s.targets[0]) for s in gate_stmts}
         for s in gate_stmts:
             a = [unparse(x) for x in s.value.args]
-            if len(a) < 3 or a[1] not in gated:
+            # two-step form: ``r = <rewrite>; r = gate(parent, r, dependents)`` - the gated value must be the returned
+            # variable; one-step form: ``r = gate(parent, <rewrite expression>, dependents)`` - any expression
+            if len(a) < 3 or (a[1].isidentifier() and a[1] not in gated):
                 ctx.finding(rr, site(f, s), f"_preserve_grid_contract is applied to {a[1] if len(a) > 1 else '?'}, not to the value being returned", func=f, node=s)
         for r in cfg.returns:
             v = unparse(r.value) if r.value is not None else "None"
